@@ -327,6 +327,11 @@ def project_comparison(cfg: dict) -> dict:
     want_x = time / cfg["tau"]
     want_cum = np.cumsum(gas[keep]) / cfg["M"]
     want_pf = press[keep]
+    if cfg["window"] is not None:
+        # the frac-face pressure of the figure is the one handed to the simulation: the boxcar-smoothed series
+        from scipy.ndimage import uniform_filter1d  # noqa: PLC0415
+
+        want_pf = uniform_filter1d(want_pf, size=cfg["window"])
     a1, a2 = out["ax1"], out["ax2"]
     len_ok = len(a1) == 2 and len(a2) == 1 and all(len(x) == len(want_x) == len(y) for x, y in a1 + a2)
     ev = {"ev": "Cmp", "n": int(keep.sum()), "lines1": len(a1), "lines2": len(a2), "len_ok": bool(len_ok),
